@@ -126,6 +126,10 @@ def _space(name):
         return odl.uniform_discr(0, 2, 4)                     # cell 1/2
     if name == 'ud22':
         return odl.uniform_discr([0, 0], [1, 2], (2, 2))      # cells 1/2 x 1
+    if name == 'ud5':
+        return odl.uniform_discr(0, 2.5, 5)                   # cell 1/2
+    if name == 'rn2^2':
+        return odl.rn(2) ** 2
     raise KeyError(name)
 
 
@@ -135,18 +139,24 @@ def _el(sp, lst):
 
 
 # operator name -> domain name
-DOM = {'I3': 'rn3', 'M23': 'rn3', 'D3': 'rn3', 'B3': 'rn3', 'B11': 'rn3', 'M32': 'rn2',
+# SQUARE operators (domain == range) whose evaluation / adjoint is NOT safe when ``out`` is the
+# input: a solver that takes its domain and range temporaries from one pool runs them aliased
+SQOPS = ['PD4', 'PSO', 'PD5']
+DKIND = {'PSO': 'W'}        # kind of the domain (default: tensor space)
+DOM = {'PD4': 'ud4', 'PD5': 'ud5', 'PSO': 'rn2^2',
+       'I3': 'rn3', 'M23': 'rn3', 'D3': 'rn3', 'B3': 'rn3', 'B11': 'rn3', 'M32': 'rn2',
        'I4': 'ud4', 'G4': 'ud4', 'I22': 'ud22', 'G22': 'ud22',
        'P23': 'rn3', 'P33': 'rn3', 'Sq3': 'rn3', 'Sym3': 'rn3'}
 # kind of the range: T tensor, W power space, X product of two different spaces,
 # V power space with one-dimensional components
-RKIND = {'I3': 'T', 'M23': 'T', 'D3': 'T', 'B3': 'X', 'B11': 'V', 'M32': 'T', 'I4': 'T',
+RKIND = {'PD4': 'T', 'PD5': 'T', 'PSO': 'W',
+         'I3': 'T', 'M23': 'T', 'D3': 'T', 'B3': 'X', 'B11': 'V', 'M32': 'T', 'I4': 'T',
          'G4': 'W', 'I22': 'T', 'G22': 'W', 'P23': 'T', 'P33': 'T', 'Sq3': 'T', 'Sym3': 'T'}
 QOPS = ['I3', 'M23', 'G22', 'B3']
 DOPS = ['I3', 'M23', 'G22', 'B3', 'M32', 'G4', 'I22', 'B11']
-GROUPS_Q = {'rn3': ['I3', 'M23', 'B3'], 'ud22': ['G22']}
-GROUPS_D = {'rn3': ['I3', 'M23', 'B3', 'D3', 'B11'], 'rn2': ['M32'], 'ud4': ['I4', 'G4'],
-            'ud22': ['I22', 'G22']}
+GROUPS_Q = {'rn3': ['I3', 'M23', 'B3'], 'ud22': ['G22'], 'ud4': ['PD4'], 'rn2^2': ['PSO']}
+GROUPS_D = {'rn3': ['I3', 'M23', 'B3', 'D3', 'B11'], 'rn2': ['M32'], 'ud4': ['I4', 'G4', 'PD4'],
+            'ud22': ['I22', 'G22'], 'rn2^2': ['PSO'], 'ud5': ['PD5']}
 
 
 def _op(name):
@@ -176,6 +186,16 @@ def _op(name):
             odl.MatrixOperator(np.array([[0.0, 2.0, -0.5]]), domain=dom))
     if name == 'Sq3':
         return odl.PowerOperator(dom, 2)
+    if name == 'PD4':
+        return odl.PartialDerivative(dom, 0, method='forward', pad_mode='constant')
+    if name == 'PD5':
+        return odl.PartialDerivative(dom, 0, method='backward', pad_mode='symmetric')
+    if name == 'PSO':
+        r2 = dom[0]
+        return odl.ProductSpaceOperator(
+            [[odl.IdentityOperator(r2), odl.MatrixOperator(np.array([[1.0, 0.5], [0.0, -1.0]]),
+                                                           domain=r2, range=r2)],
+             [odl.ScalingOperator(r2, 2.0), None]], domain=dom, range=dom)
     raise KeyError(name)
 
 
@@ -195,6 +215,16 @@ SMOOTH = ['L2sqt', 'Huber', 'L2sq', 'Zero']
 
 def _pool(kind, deep):
     return FPOOL[kind] if deep else FPOOL[kind][:QN[kind]]
+
+
+def _fg_pairs(L, deep):
+    """(f on L.domain, g on L.range) pairs of the large pools; the square non-alias-safe
+    operators get the short pools in the quick tier."""
+    dk, rk = DKIND.get(L, 'T'), RKIND[L]
+    if L in SQOPS and not deep:
+        return [(f, g) for f in SHORT[dk][:3] for g in SHORT[rk][:3]]
+    fs = [f for f in _pool(dk, deep) if not (dk != 'T' and f == 'Huber')]
+    return [(f, g) for f in fs for g in _pool(rk, deep)]
 
 
 def _func(name, sp):
@@ -243,7 +273,11 @@ def _start(sp, kind):
 
 def _clip(x):
     """Projection onto the non-negative orthant, in place (the documented use of projection=)."""
-    x.ufuncs.maximum(0, out=x)
+    if S.is_pspace(x.space):
+        for xi in x:
+            _clip(xi)
+    else:
+        x.ufuncs.maximum(0, out=x)
 
 
 # ------------------------------------------------------------------------------------------
@@ -253,7 +287,8 @@ class Case(object):
     """One problem instance: how to make a fresh state and how to advance it by n iterations."""
 
     def __init__(self, label, fresh, run, ref=None, keys=('x',), mult=1, resumable=False,
-                 early=False, default_run=None, files=(), count_alt=None, raise_site=None):
+                 early=False, default_run=None, files=(), count_alt=None, raise_site=None,
+                 cbkey=None, ref_traj=None, ref_name='reference'):
         self.label = label
         self.fresh = fresh          # () -> dict of elements (the state the caller owns)
         self.run = run              # (state, n, callback) -> None      implementation
@@ -266,6 +301,11 @@ class Case(object):
         self.files = files          # source files of the solver (to attribute exceptions)
         self.count_alt = count_alt  # second admissible callbacks-per-iteration (docs ambiguous)
         self.raise_site = raise_site    # coarser site for exceptions raised by the solver itself
+        self.cbkey = cbkey          # callback position class (the full callback alphabet is run
+        #                             for the first instance of every class of a state)
+        self.ref_traj = ref_traj    # (N) -> [state after k iterations, k = 0..N] of a reference
+        #                             loop built by the harness from the documented iteration
+        self.ref_name = ref_name
 
 
 def _snap(st, keys):
@@ -319,6 +359,24 @@ def _attempt(fn, files):
         return ('own' if own else 'inner', e)
 
 
+class _FalsyCallback(object):
+    """A valid callback (callable) whose truth value is False: ``if callback:`` skips it."""
+
+    def __init__(self):
+        self.recs = []
+
+    def __call__(self, x):
+        self.recs.append(S.to_flat(x))
+
+    def __bool__(self):
+        return False
+
+    __nonzero__ = __bool__
+
+    def __len__(self):
+        return 0
+
+
 class _Acc(object):
     def __init__(self):
         self.first = {}
@@ -335,7 +393,7 @@ class _Acc(object):
         self.why[why] = self.why.get(why, 0) + 1
 
 
-def _check_case(c, N, three_way, acc, name):
+def _check_case(c, N, three_way, acc, name, full_cb=True):
     lab = '%s %s' % (name, c.label)
     # ---- reference first: is the problem instance executable at all?
     ref = c.ref
@@ -385,19 +443,32 @@ def _check_case(c, N, three_way, acc, name):
             K = k - 1
             break
     acc.sigs.add(str(np.sign(F[K][0] - start[0]).astype(int).tolist()))
-    # ---- (a) lock-step against the shipped reference
-    if ref is not None:
+    # ---- (a) lock-step against the shipped reference / the documented iteration
+    traj = None
+    if ref is None and c.ref_traj is not None:
+        box = []
+        r = _attempt(lambda: box.append(c.ref_traj(N)), c.files)
+        if r is not None:
+            acc.skip('reference loop raises in functional/operator code: '
+                     + type(r[1]).__name__)
+        else:
+            traj = box[0]
+    if ref is not None or traj is not None:
         scale = 1.0 + _mag(start)
         for k in range(0, N + 1):
-            st = c.fresh()
-            r = _attempt(lambda: ref(st, k), c.files)
-            if r is not None:
-                if r[0] == 'finding':
-                    acc.viol(r[1].symptom, '%s niter=%d: %s' % (lab, k, r[1].detail))
-                else:
-                    acc.skip('reference raises at niter=%d: %s' % (k, type(r[1]).__name__))
-                break
-            R = _snap(st, c.keys)
+            if traj is not None:
+                R = traj[k]
+            else:
+                st = c.fresh()
+                r = _attempt(lambda: ref(st, k), c.files)
+                if r is not None:
+                    if r[0] == 'finding':
+                        acc.viol(r[1].symptom, '%s niter=%d: %s' % (lab, k, r[1].detail))
+                    else:
+                        acc.skip('reference raises at niter=%d: %s'
+                                 % (k, type(r[1]).__name__))
+                    break
+                R = _snap(st, c.keys)
             if not _finite(R):
                 acc.skip('non-finite reference iterate')
                 break
@@ -407,8 +478,8 @@ def _check_case(c, N, three_way, acc, name):
             acc.evals += 1
             if k > K or not _close(F[k], R, scale):
                 acc.viol('iterate_differs_from_reference',
-                         '%s: after %d iteration(s) reference %s, optimised %s (tolerance %.1e)'
-                         % (lab, k, _fmt(R), _fmt(F[k]), TOL * scale))
+                         '%s: after %d iteration(s) %s %s, optimised %s (tolerance %.1e)'
+                         % (lab, k, c.ref_name, _fmt(R), _fmt(F[k]), TOL * scale))
                 break
     elif K < N:
         acc.skip('non-finite iterate')
@@ -458,6 +529,37 @@ def _check_case(c, N, three_way, acc, name):
                              '%s: %d callbacks for niter=%d but niter=%d gives %s != %s'
                              % (lab, cnt, N, k, _fmt(F[k]), _fmt(F[done])))
                     break
+    # ---- the callback is called whatever its truth value: an empty CallbackStore (it defines
+    #      __len__, so it is falsy until it holds a record) and a falsy callable object must see
+    #      exactly what the plain function saw
+    if full_cb:
+        for kind in ('a fresh empty odl.solvers.CallbackStore()',
+                     'a callable with __bool__ False'):
+            st2 = c.fresh()
+            if kind.startswith('a fresh'):
+                cbo = odl.solvers.CallbackStore()
+            else:
+                cbo = _FalsyCallback()
+            r = _attempt(lambda: c.run(st2, N, cbo), c.files)
+            if r is not None:
+                acc.viol('raises_with_falsy_callback:' + type(r[1]).__name__,
+                         '%s niter=%d callback=%s: %r' % (lab, N, kind, r[1]))
+                continue
+            acc.evals += 1
+            got = cbo.recs if isinstance(cbo, _FalsyCallback) else [S.to_flat(e)
+                                                                    for e in cbo.results]
+            if len(got) != cnt:
+                acc.viol('falsy_callback_count',
+                         '%s niter=%d: a plain function is called %d times, %s (a valid callback '
+                         'whose truth value is False) %d times' % (lab, N, cnt, kind, len(got)))
+            elif any(not (a.shape == b[0].shape and np.array_equal(a, b[0]))
+                     for a, b in zip(got, recs)):
+                acc.viol('falsy_callback_record_differs',
+                         '%s niter=%d: %s recorded other iterates than a plain function'
+                         % (lab, N, kind))
+            if not _same(_snap(st2, c.keys), fin):
+                acc.viol('falsy_callback_changes_result', '%s niter=%d callback=%s'
+                         % (lab, N, kind))
     # ---- documented defaults = explicit initial state
     if c.default_run is not None:
         for k in sorted(set([1, N])):
@@ -598,7 +700,7 @@ def _cases_adupdates(cfg):
                           [b['ss'] if b['ss'] != 'scalar' else val for b in blocks], x0, loop,
                           ' random=True numpy.random.seed(%d)' % seed if rnd else ''),
                        fresh, run, ref if loop == 'outer' else None, files=files,
-                       mult=len(blocks) if loop == 'inner' else 1, raise_site=rsite)
+                       mult=len(blocks) if loop == 'inner' else 1, raise_site=rsite, cbkey=loop)
 
 
 def _cases_dpdc(cfg):
@@ -648,10 +750,28 @@ def _cases_pdhg(cfg):
         def default_run(st, n, tau=tau, sigma=sigma, kw=kw):
             M_pdhg.pdhg(st['x'], f, g, L, n, tau, sigma, **kw)
 
+        def ref_traj(N, tau=tau, sigma=sigma, theta=theta, fresh=fresh):
+            # The documented iteration (doc/source/math/solvers/nonsmooth/pdhg.rst), naive and
+            # out of place:   y+ = prox_{sigma g*}(y + sigma L xbar),
+            #                 x+ = prox_{tau f}(x - tau L^* y+),   xbar+ = x+ + theta (x+ - x)
+            st = fresh()
+            x, xbar, y = st['x'], st['x_relax'], st['y']
+            prox_d = g.convex_conj.proximal(sigma)
+            prox_p = f.proximal(tau)
+            out = [(S.to_flat(x), S.to_flat(xbar), S.to_flat(y))]
+            for _ in range(N):
+                y = prox_d(y + sigma * L(xbar))
+                xn = prox_p(x - tau * L.adjoint(y))
+                xbar = xn + theta * (xn - x)
+                x = xn
+                out.append((S.to_flat(x), S.to_flat(xbar), S.to_flat(y)))
+            return out
+
         # X (DESIGN): the accelerated variants keep their step sizes as locals: not resumable
         yield Case('L=%s %s tau=%s sigma=%s x0=%s' % (cfg['L'], kw, tau, sigma, x0), fresh, run,
                    keys=('x', 'x_relax', 'y'), resumable=not acc, default_run=default_run,
-                   files=files)
+                   files=files, ref_traj=None if acc else ref_traj,
+                   ref_name='documented iteration (math/solvers/nonsmooth/pdhg.rst)')
 
 
 def _cases_landweber(cfg):
@@ -719,7 +839,7 @@ def _cases_kaczmarz(cfg):
                    % (cfg['ops'], om, 'clip' if proj else None, x0, loop,
                       ' random=True numpy.random.seed(%d)' % seed if rnd else ''), fresh, run,
                    ref, resumable=(loop == 'outer'), mult=len(ops) if loop == 'inner' else 1,
-                   files=files)
+                   files=files, cbkey=loop)
 
 
 def _smooth(name, L):
@@ -948,7 +1068,7 @@ def configs(tier):
 
     # small pools first (cheap, full inner products) ---------------------------------------
     # (b) landweber, kaczmarz
-    for L in DOPS + ['D3', 'I4', 'Sq3', 'P23']:
+    for L in DOPS + ['D3', 'I4', 'Sq3', 'P23', 'PD4', 'PD5']:
         add(FULL, solver='landweber', L=L)
     for dom, gops in list(GROUPS_D.items()) + [('rn3-nonlinear', ['Sq3', 'M23'])]:
         for L in gops:
@@ -990,17 +1110,16 @@ def configs(tier):
             for f in _pool('T', deep):
                 add(1, solver='prox_dca', space=sp, g=g, f=f)
     # (a) alternating dual updates, one block
-    for L in DOPS + ['D3', 'I4']:
-        for g in FPOOL[RKIND[L]]:
+    for L in DOPS + ['D3', 'I4'] + SQOPS:
+        for g in (FPOOL[RKIND[L]] if deep or L not in SQOPS else SHORT[RKIND[L]]):
             for k in _ss_kinds(g, RKIND[L]):
                 add(FULL if not deep else 2, solver='adupdates',
                     blocks=[{'L': L, 'g': g, 'ss': k}])
     # large pools (inner alphabet: at most one deviation from the default instance) ----------
     # (a) linearized ADMM: every operator x every f on its domain x every g on its range
-    for L in ops:
-        for f in _pool('T', deep):
-            for g in _pool(RKIND[L], deep):
-                add(1, solver='admm_linearized', L=L, f=f, g=g)
+    for L in ops + SQOPS:
+        for f, g in _fg_pairs(L, deep):
+            add(1, solver='admm_linearized', L=L, f=f, g=g)
     # (a) alternating dual updates, two blocks (fixed order; equal ranges share the temporary)
     for dom, gops in groups.items():
         for L1, L2 in itertools.product(gops, repeat=2):
@@ -1035,20 +1154,20 @@ def configs(tier):
         add(1, solver='adupdates',
             blocks=[{'L': L, 'g': g, 'ss': 'scalar'} for L, g in zip(tri, gg)])
     # (a) double-proximal d.c.
-    for L in ops:
+    for L in ops + SQOPS:
         for phi in SMOOTH:
-            for f in _pool('T', deep):
-                for g in _pool(RKIND[L], deep):
-                    if phi != 'L2sqt' and not (deep and L in QOPS) and not (
-                            f in ('L1', 'Box') and g in ('L1', 'L2sqt', 'GL1', 'Sep(L1,L2sq)')):
-                        continue
-                    add(1, solver='doubleprox_dc', L=L, f=f, phi=phi, g=g)
+            if phi == 'Huber' and DKIND.get(L, 'T') != 'T':
+                continue
+            for f, g in _fg_pairs(L, deep):
+                if phi != 'L2sqt' and not (deep and L in QOPS) and not (
+                        f in ('L1', 'Box') and g in ('L1', 'L2sqt', 'GL1', 'Sep(L1,L2sq)')):
+                    continue
+                add(1, solver='doubleprox_dc', L=L, f=f, phi=phi, g=g)
     # (b) pdhg with the state passed back; (c) accelerated variants
-    for L in ops:
-        for f in _pool('T', deep):
-            for g in _pool(RKIND[L], deep):
-                add(1, solver='pdhg', L=L, f=f, g=g)
-    for L in ops:
+    for L in ops + SQOPS:
+        for f, g in _fg_pairs(L, deep):
+            add(1, solver='pdhg', L=L, f=f, g=g)
+    for L in ops + SQOPS:
         for f, g in (('L2sqt', 'L1'), ('L2sq', 'L2sqt'), ('Box', 'L2sqt')):
             if g in FPOOL[RKIND[L]]:
                 add(1, solver='pdhg', L=L, f=f, g=g, acc='primal')
@@ -1062,7 +1181,9 @@ def configs(tier):
                     add(1, solver='proximal_gradient', L=L, f=f, g=g, acc=True)
     # (c) Douglas-Rachford
     for dom, gops in groups.items():
-        for f in (_pool('T', False) if deep else SHORT['T']):
+        dk = DKIND.get(gops[0], 'T')
+        for f in ([x for x in _pool(dk, False) if dk == 'T' or x != 'Huber'] if deep
+                  else SHORT[dk]):
             for L in gops:
                 for g in (_pool(RKIND[L], False) if deep else SHORT[RKIND[L]]):
                     add(1, solver='douglas_rachford_pd', ops=[L], f=f, g=[g])
@@ -1133,6 +1254,7 @@ def run(cfg):
         return {'evals': 0, 'skipped': 1, 'trivial': True, 'sig': 'unbuildable',
                 'why': {'construction raises: ' + type(e).__name__: 1}}
     rnd = bool(cfg.get('random'))
+    seen_cb = set()
     if rnd:
         rng_state = np.random.get_state()
         del _PERMS[:]
@@ -1142,7 +1264,9 @@ def run(cfg):
             # thorough: 3-way splittings for every instance of the small pools, for the default
             # instance of the large pools
             three = cfg['deep'] and (i == 0 or cfg['dev'] > 1)
-            _check_case(c, cfg['N'], three, acc, name)
+            ck = (c.mult, c.cbkey)
+            _check_case(c, cfg['N'], three, acc, name, full_cb=ck not in seen_cb)
+            seen_cb.add(ck)
     finally:
         if rnd:
             np.random.permutation = _ORIG_PERMUTATION
@@ -1237,7 +1361,8 @@ def meta(tier):
             'order drawn through numpy.random.permutation is recorded and a state whose orders '
             'are all the identity or never change within a call is counted as vacuous.  '
             'kaczmarz has no shipped reference: the reference loop replays the orders the solver '
-            'drew (one per outer iteration, as documented) with single fixed-order steps' % (SEEDS,),
+            'drew (one per outer iteration, as documented) with single fixed-order steps'
+            % (SEEDS,),
             'mlem / osmlem: the sensitivities object (float, element, caller-owned list) is ONE '
             'object per instance reused by all calls, as a caller resuming a run would do',
         ],
